@@ -4,6 +4,7 @@ import struct
 import sys
 import warnings
 from dataclasses import dataclass
+from enum import Enum
 from multiprocessing.shared_memory import SharedMemory
 from pathlib import Path
 from typing import ClassVar, Protocol
@@ -34,6 +35,11 @@ INP = pa.schema([pa.field("a", pa.int64())])
 SERVER_VERSION = "1.2.0"
 
 
+class Color(Enum):
+    RED = "red"
+    GREEN = "green"
+
+
 @dataclass
 class Hdr(ArrowSerializableDataclass):
     n: int
@@ -58,6 +64,7 @@ class XS(ExchangeState):
 class SvcPlain(Protocol):
     def echo(self, x: int) -> int: ...
     def up(self, s: str) -> str: ...
+    def paint(self, c: Color) -> str: ...
     def cat(self, a: str, n: int) -> str: ...
     def gen(self, n: int) -> Stream[ProducerState]: ...
     def xch(self, k: int) -> Stream[ExchangeState]: ...
@@ -69,6 +76,7 @@ class SvcVer(Protocol):
 
     def echo(self, x: int) -> int: ...
     def up(self, s: str) -> str: ...
+    def paint(self, c: Color) -> str: ...
     def cat(self, a: str, n: int) -> str: ...
     def gen(self, n: int) -> Stream[ProducerState]: ...
     def xch(self, k: int) -> Stream[ExchangeState]: ...
@@ -89,6 +97,10 @@ class Impl:
     def up(self, s: str) -> str:
         self.calls.append(("up", s))
         return s.upper()
+
+    def paint(self, c: Color) -> str:
+        self.calls.append(("paint", c))
+        return c.value
 
     def cat(self, a: str, n: int) -> str:
         self.calls.append(("cat", a, n))
@@ -158,7 +170,8 @@ class Segments:
 # ------------------------------------------------------------------------------------------------ concretisation
 METHODS = {  # class -> [(wire name, declared parameter schema)]
     "unary": [("echo", pa.schema([pa.field("x", pa.int64(), nullable=False)])),
-              ("up", pa.schema([pa.field("s", pa.utf8(), nullable=False)]))],
+              ("up", pa.schema([pa.field("s", pa.utf8(), nullable=False)])),
+              ("paint", pa.schema([pa.field("c", pa.dictionary(pa.int16(), pa.utf8()), nullable=False)]))],
     "stream_hdr": [("genh", pa.schema([pa.field("n", pa.int64(), nullable=False)]))],
     "stream_nohdr": [("gen", pa.schema([pa.field("n", pa.int64(), nullable=False)])),
                      ("xch", pa.schema([pa.field("k", pa.int64(), nullable=False)]))],
@@ -211,7 +224,7 @@ def _value(t: pa.DataType, i: int):
     if pa.types.is_timestamp(t):
         return 1_000_000
     if pa.types.is_dictionary(t):
-        return "d"
+        return "GREEN" if i % 2 == 0 else "d"
     return None
 
 
@@ -247,8 +260,10 @@ def perturb_schema(base: pa.Schema, cols: str, v: int, parameterless: bool) -> p
     if cols == "missing":
         return pa.schema(list(base)[1:])
     if cols == "retyped":
-        if t == f0.type:
+        if t == f0.type and not pa.types.is_dictionary(t):
             t = pa.float32()
+        if t == f0.type:          # enum parameter, same wire type: the *value* names no member (see concretise)
+            return base
         return pa.schema([pa.field(f0.name, t, nullable=(v % 2 == 1) or pa.types.is_null(t))] + list(base)[1:])
     raise ValueError(cols)
 
@@ -271,8 +286,18 @@ def concretise(case: dict, v: int, segs: Segments, rng) -> dict:
         md[b"vgi_rpc.protocol_version"] = PV_OK[v % len(PV_OK)] if case["pv"] == "ok" else PV_WRONG[v % len(PV_WRONG)]
     schema = perturb_schema(base, case["cols"], v, parameterless)
     rows = case["rows"]
-    batch = _batch(schema, rows)
     label = {}
+    unknown_member = case["cols"] == "retyped" and schema.equals(base)     # enum parameter, same wire type
+
+    def payload(nrows: int) -> pa.RecordBatch:
+        if unknown_member and nrows:
+            bad = pa.array(["PURPLE"] * nrows, pa.utf8()).dictionary_encode().cast(schema.field(0).type)
+            return pa.RecordBatch.from_arrays([bad], schema=schema)
+        return _batch(schema, nrows)
+
+    batch = payload(rows)
+    if unknown_member:
+        label["value"] = "unknown enum member"
     # ---- shm segment keys
     seg = case["seg"]
     good_name, good_size = segs.good.name.encode(), str(segs.good.size).encode()
@@ -292,7 +317,7 @@ def concretise(case: dict, v: int, segs: Segments, rng) -> dict:
     # ---- shm pointer keys
     ptr = case["ptr"]
     if ptr == "ok":
-        off, ln = segs.good.allocate_and_write(_batch(schema, 1))
+        off, ln = segs.good.allocate_and_write(payload(1))
         md[K_OFF], md[K_LEN] = str(off).encode(), str(ln).encode()
     elif ptr == "garbage":
         g = [(b"xyz", b"100"), (b"", b"100"), (b"-5", b"100"), (b"\xff", b"100"), (b"1.5", b"100"), (b"65536", b"abc"),
@@ -303,7 +328,7 @@ def concretise(case: dict, v: int, segs: Segments, rng) -> dict:
     elif ptr == "range":
         size = segs.good.size
         if v % 6 == 5:     # valid IPC bytes in the data region, but not (or no longer) a live allocation
-            off, ln = segs.good.allocate_and_write(_batch(schema, 1))
+            off, ln = segs.good.allocate_and_write(payload(1))
             segs.good.free(off)
             g = (str(off).encode(), str(ln).encode())
         else:
